@@ -129,8 +129,8 @@ def c05_job(chk, rng, i):
             else:
                 r = rules[j]
                 if inherited is not None:
-                    if r["scs_own"] == "*":
-                        r["scs_own"] = None     # <*> inside a scope is not generated
+                    if rng.chance(12):
+                        r["scs_own"] = "*"      # <*> inside a scope: every condition
                     r["scs"] = union(inherited, r["scs_own"])
                 items.append(j)
                 j += 1
@@ -144,6 +144,10 @@ def c05_job(chk, rng, i):
          "pop_pct": 25}
     scripts.decorate(case, rng, f)
     scripts.driver_walk_scs(case, rng)
+    # a start condition chosen before the very first call of yylex() (and, in the second
+    # session of C13, before the first call after yylex_destroy) must be honoured
+    if nsc > 1 and rng.chance(60):
+        case["driver"]["init"] = [("open", 0), ("begin", rng.below(nsc))]
     # driver also uses the stack between calls
     if rng.chance(50):
         extra = [[("push", rng.below(nsc))], [("top",)], [("pop",)]]
@@ -545,6 +549,10 @@ def c03_job(chk, rng, i):
     p["trail"] = 15
     p["bol"] = 15
     reject_case = (i % 6 == 5)
+    if i % 3 == 1:
+        # NUL and high bytes in rules and input: a NUL that is the last byte of a delivery
+        # must not be taken for the end-of-buffer sentinel
+        p["extra_alpha"] = b"\x00\x00\xff"
     g, case = base_case(chk, rng, p)
     f = {"ret": 25, "more": 15}
     if reject_case:
@@ -564,6 +572,12 @@ def c03_job(chk, rng, i):
             s = s[:pos] + bytes(rng.choice(b"xy") for _ in range(rng.choice([5, 20, 70, 200]))) + s[pos:]
         if reject_case:
             s = s.replace(b"x", b"q").replace(b"y", b"q")   # REJECT buffers do not grow
+        if i % 3 == 1:
+            sb = bytearray(s)
+            for _ in range(rng.rint(1, 4)):
+                pos = rng.below(len(sb) + 1)
+                sb[pos:pos] = b"\x00" * rng.choice([1, 1, 2])
+            s = bytes(sb)
         scheds = [[1], [0], [rng.rint(1, 8) for _ in range(5)], [1, 2, 4, 8, 16, 32], [3]]
         bufs = [0, 1, 2, 3, 7, 16, 64]
         if reject_case:
